@@ -7,7 +7,9 @@ from sqlparse import tokens as T
 import props.C06 as C06
 
 RULE = ('grammar scripts x {strip_whitespace, use_space_around_operators, reindent with every sub-option combination (thorough) / sampled (quick)}; the stated normal form is checked on the output text and by re-lexing; '
-        'the first two outputs are formatted again (fixed point); non-trivial = distinct (script, option set)')
+        'the first two outputs are formatted again (fixed point); sweeps: every clause keyword (every JOIN spelling) x 14 contexts where a query can stand x reindent option sets, '
+        'every operator spelling x 24 syntactic positions, whitespace runs of every kind between every pair of item kinds (comments included) x bracket contexts; '
+        'non-trivial = distinct (script, option set)')
 ASSUMPTIONS = ['re-lexing by the real lexer decides what is a comment/literal/operator in the output']
 PARTIAL = ['tree-level normal forms, the spaces fixed point, the IdentifierList fixed point criterion (KF-C10-3 = its counterexample) and the reindent clause for every list _process_default handles (clause keyword directly preceded by the nl() token, hypothesis noBreakBefore) are theorems; the lift of the reindent clause through _process_identifierlist/_case/_parenthesis and through the serializer regex, and the text-level reading of the normal forms, are oracle-checked; known findings KF-C10-2..4']
 CLAUSE_KW = {'FROM', 'WHERE', 'GROUP BY', 'ORDER BY', 'HAVING', 'LIMIT', 'UNION', 'UNION ALL', 'EXCEPT', 'SET', 'AND', 'OR'}
@@ -24,6 +26,25 @@ def outside_regions(out):
     return ''.join(parts)
 
 
+def paren_blank(out):
+    """a blank after '(' or before ')' that is not next to a comment (the property's exception), decided on the re-lexed output"""
+    toks = oracles.lex(out)
+    for i, (tt, v) in enumerate(toks):
+        if tt is T.Punctuation and v == '(' and i + 1 < len(toks) and toks[i + 1][0] in T.Whitespace:
+            j = i + 1
+            while j < len(toks) and toks[j][0] in T.Whitespace:
+                j += 1
+            if j >= len(toks) or toks[j][0] not in T.Comment:
+                return True
+        if tt is T.Punctuation and v == ')' and i > 0 and toks[i - 1][0] in T.Whitespace:
+            j = i - 1
+            while j >= 0 and toks[j][0] in T.Whitespace:
+                j -= 1
+            if j < 0 or toks[j][0] not in T.Comment:
+                return True
+    return False
+
+
 def check_stripws(ctx, text):
     opts = {'strip_whitespace': True}
     out = sqlparse.format(text, **opts)
@@ -33,10 +54,10 @@ def check_stripws(ctx, text):
     bl = outside_regions(out)
     if bl != bl.strip():
         ctx.fail('strip_whitespace: leading or trailing blanks', text, observed=out[:200], required='stripped', options=repr(opts))
-    elif re.search(r'[ \t\r\n][ \t\r\n]', bl) and not has_comment:
-        ctx.fail('strip_whitespace: run of two whitespace characters outside comments and literals', text, observed=out[:300], required='single blanks', options=repr(opts))
-    elif (re.search(r'\([ \t\r\n]', bl) or re.search(r'[ \t\r\n]\)', bl)) and not has_comment:
-        ctx.fail('strip_whitespace: blank after ( or before )', text, observed=out[:300], required='no blank inside parentheses', options=repr(opts))
+    elif re.search(r'\s\s', bl):
+        ctx.fail('strip_whitespace: run of two whitespace characters outside comments and literals', text, observed=out[:300], required='single blanks', options=repr(opts), has_comment=has_comment)
+    elif paren_blank(out):
+        ctx.fail('strip_whitespace: blank after ( or before )', text, observed=out[:300], required='no blank inside parentheses (except next to a comment)', options=repr(opts), has_comment=has_comment)
     out2 = sqlparse.format(out, **opts)
     if out2 != out:
         ctx.fail('strip_whitespace is not a fixed point', text, observed=out2[:300], required=out[:300], options=repr(opts))
@@ -91,6 +112,115 @@ def check_reindent(ctx, text, opts):
         sig_before = True
 
 
+# ---------------------------------------------------------------------------------------------------------------------------------
+# sweeps over finite tables (red-team round)
+def join_spellings():
+    """every keyword the lexer's JOIN rule can produce"""
+    out = ['JOIN', 'STRAIGHT_JOIN', 'CROSS JOIN', 'NATURAL JOIN']
+    for a in ('', 'LEFT ', 'RIGHT ', 'FULL '):
+        for b in ('', 'INNER ', 'OUTER ', 'STRAIGHT '):
+            if a or b:
+                out.append(a + b + 'JOIN')
+    return out
+
+
+BODY = 'select a, b from t1 {join} t2 on t1.x = t2.x and t1.y = t2.y where a = 1 and b between 1 and 2 or c = 3 group by a, b having count(*) > 1 and d order by a, b limit 3 union all select b, c from u except select c, d from v union select 1, 2'
+CLAUSE_CONTEXTS = [
+    '{q}',
+    'select * from ({q}) s where x and y',
+    'select coalesce(1 + ({q}), 0), f(2, ({q})) from dual',
+    'select case when exists ({q}) and x = 1 or y then ({q}) else 0 end from dual',
+    'create procedure p() begin if a = 1 and b = 2 or c then {q}; end if; while x and y do {q}; end while; end',
+    'with q as ({q}) select * from q where a and b',
+    'insert into t (a, b) {q}',
+    'create table t as {q}',
+    'select sum(a) over (partition by b order by c), d from t where x in ({q}) and y between 1 and 2 and z',
+    'select a from t where b = ({q}) and c > all ({q}) or d',
+    'update t set a = ({q}), b = 2 where c and d or e',
+    'select a from t -- c\n where x -- d\n and y /* e */ or z /* f */ group by a -- g\n order by a',
+    'select a from t where x in (1, 2) and (y or (z and w)) and f(a and b, c or d)',
+    'delete from t where a and b or c',
+]
+CLAUSE_OPTS = [{'reindent': True}, {'reindent': True, 'comma_first': True}, {'reindent': True, 'indent_columns': True}, {'reindent': True, 'wrap_after': 20}, {'reindent': True, 'compact': True},
+               {'reindent': True, 'indent_after_first': True, 'indent_tabs': True}, {'reindent': True, 'wrap_after': 1, 'indent_width': 4}, {'reindent': True, 'reindent_aligned': True}]
+
+
+def spell(rng, text, how):
+    if how == 0:
+        return text
+    if how == 1:
+        return text.upper()
+    # mixed case, other whitespace between the words of multi-word keywords
+    out = ''.join(ch.upper() if rng.random() < 0.5 else ch for ch in text)
+    for kw in ('group by', 'order by', 'union all', 'left join', 'outer join', 'inner join', 'cross join', 'natural join', 'right ', 'full ', 'left '):
+        out = re.sub(re.escape(kw).replace('\\ ', ' '), lambda m: m.group(0).replace(' ', rng.choice(['  ', '\t', ' \n ', ' '])), out, flags=re.I)
+    return out
+
+
+def clause_cases(ctx):
+    """every clause keyword (every JOIN spelling) in every context where a query can stand x reindent option sets"""
+    rng = ctx.rng
+    joins = join_spellings()
+    for ci, cx in enumerate(CLAUSE_CONTEXTS):
+        for ji, j in enumerate(joins):
+            if ctx.quick() and (ci + ji) % 3:
+                continue
+            text = cx.replace('{q}', BODY.replace('{join}', j.lower()))
+            for how in ((0, 1, 2) if not ctx.quick() else (rng.choice([0, 1, 2]),)):
+                t = spell(rng, text, how)
+                for oi, o in enumerate(CLAUSE_OPTS):
+                    if ctx.quick() and (oi + ci + ji) % 4:
+                        continue
+                    try:
+                        check_reindent(ctx, t, o)
+                    except Exception as e:
+                        ctx.fail('format raised ' + type(e).__name__, t, observed=repr(e)[:200], required='formatted text', options=repr(o))
+    ctx.count('sweep.clauses')
+
+
+OPERATORS = ['+', '-', '/', '%', '^', '&', '|', '||', '@', '->', '->>', '#>', '#>>', '@>', '<@', '?|', '?&', '#-', '<', '>', '=', '<=', '>=', '<>', '!=', '==', '~', '!~', '~*', '<=>', ':=', 'like', 'not like', 'ilike',
+             'rlike', 'regexp', 'not regexp', 'not  ilike', '&&', '<<', '>>', '|/', '@@', '+-']
+OP_CONTEXTS = ['a{o}b', 'select a{o}b from t', '(a{o}b)', 'f(a{o}b, c{o}d)', 'x[a{o}b]', 'x[1:n{o}1]', '({o}a)', 'f({o}a)', 'select a,{o}b from t', 'select case when a{o}b then c{o}d else e{o}f end',
+               'a{o}(b)', '(a){o}(b)', 'a{o}b{o}c', "'s'{o}'t'", '1{o}2', 'a.b{o}c.d', 'update t set a = b{o}c where d{o}e', 'a{o}\nb', 'a\n{o}b', 'a {o}b', 'a{o} b', 'select a{o}b as c, d{o}-1 from t',
+               'a{o}/*c*/b', 'a/*c*/{o}b']
+
+
+def operator_cases(ctx):
+    """every operator/comparison spelling the lexer knows in every syntactic position (incl. directly after an opening bracket, inside subscripts)"""
+    for o in OPERATORS:
+        w = o[0].isalpha()
+        for cx in OP_CONTEXTS:
+            text = cx.replace('{o}', ' ' + o + ' ' if w else o)
+            try:
+                check_spaces(ctx, text)
+            except Exception as e:
+                ctx.fail('format raised ' + type(e).__name__, text, observed=repr(e)[:200], required='formatted text')
+    ctx.count('sweep.operators')
+
+
+WS_RUNS = ['  ', ' \n ', '\n\n', '\t\t', '\r\n\r\n', ' \t ', '\n']
+WS_ITEMS = ['a', '1', "'s'", 'f(x)', '(b)', '/* c */', '-- c\n', '/*+ h */', 'a.b', 'case when a then b end', '[x]', 'x[1]', '*', 'a + b', 'a = b', 'not null', 'a, b']
+WS_CONTEXTS = ['select {x}{w}{y} from t', '({w}{x}{w}{y}{w})', 'f({w}{x}{w},{w}{y}{w})', 'select ({w}{x}{w}){w}{y}', '{x}{w}{y}', '(({w}{x}{w})){w}{y}', 'select a{w},{w}{x}{w},{w}{y} from t', '{w}{x}{w};{w}{y}{w}']
+
+
+def whitespace_cases(ctx):
+    """runs of every kind of whitespace between every pair of item kinds (comments included) in every bracket context"""
+    rng = ctx.rng
+    for xi, x in enumerate(WS_ITEMS):
+        for yi, y in enumerate(WS_ITEMS):
+            for ci, cx in enumerate(WS_CONTEXTS):
+                if ctx.quick() and (xi + yi + ci) % 4:
+                    continue
+                w = WS_RUNS[(xi + 2 * yi + ci) % len(WS_RUNS)] if ctx.quick() else None
+                for ww in ([w] if w else WS_RUNS):
+                    text = cx.replace('{x}', x).replace('{y}', y).replace('{w}', ww)
+                    try:
+                        check_stripws(ctx, text)
+                    except Exception as e:
+                        ctx.fail('format raised ' + type(e).__name__, text, observed=repr(e)[:200], required='formatted text')
+    ctx.count('sweep.whitespace')
+
+
 def run(ctx):
     rng = ctx.rng
     g = grammar.Gen(rng, feat={'setops': True})
@@ -121,6 +251,9 @@ def run(ctx):
             ctx.fail('format raised ' + type(e).__name__, t, observed=repr(e)[:200], required='formatted text')
     for c in streams.corpus('C10'):
         check_spaces(ctx, c['input'])
+    clause_cases(ctx)
+    operator_cases(ctx)
+    whitespace_cases(ctx)
     ctx.samples += [short(t, 80) for t in texts[:3]]
     if ctx.model.available and hasattr(streams, 's_fmt'):
         cs = [(t, rng.choice([{'strip_whitespace': True}, {'use_space_around_operators': True}, {'reindent': True}, {'reindent': True, 'comma_first': True}])) for t in texts[: ctx.n(400, 5000)]]
@@ -162,6 +295,41 @@ def only_blanks_after_comment_lines_removed(text, opts):
     return pos == len(out2)
 
 
+def _groups(text):
+    try:
+        stmts = sqlparse.parse(text)
+    except Exception:
+        return
+    stack = list(stmts)
+    while stack:
+        g = stack.pop()
+        yield g
+        stack.extend(g.get_sublists())
+
+
+def operator_at_group_edge(text):
+    """KF-C10-6 by its mechanism: an operator/comparison token that is the first or last child of a nested group (e.g. the Identifier 'n->'
+    that group_operator/JSON-operator grouping builds when the right operand is a number or a parenthesis): no neighbour in its own list"""
+    from sqlparse import sql
+    for g in _groups(text):
+        if isinstance(g, sql.Statement) or not g.tokens:
+            continue
+        for t in (g.tokens[0], g.tokens[-1]):
+            if t.ttype is T.Operator or t.ttype is T.Operator.Comparison:
+                return True
+    return False
+
+
+def parenthesis_not_closed_by_last_child(text):
+    """KF-C10-7 by its mechanism: a Parenthesis group whose last child is not ')' (align_comments folds a comment that follows the
+    parenthesis into the group), so _stripws_parenthesis trims in front of the wrong token"""
+    from sqlparse import sql
+    for g in _groups(text):
+        if isinstance(g, sql.Parenthesis) and g.tokens and not g.tokens[-1].match(T.Punctuation, ')'):
+            return True
+    return False
+
+
 def classify(f, kf):
     for k in kf:
         if k['id'] == 'KF-C10-5' and 'strip_whitespace is not a fixed point' in f['what'] and isinstance(f['input'], str) \
@@ -170,6 +338,10 @@ def classify(f, kf):
         if k['id'] == 'KF-C10-3' and 'strip_whitespace is not a fixed point' in f['what'] and re.search(r'[ \t\r\n]{2,},|[ \t\r\n],[ \t\r\n]*\n|\s\s+,', f['input']):
             return k['id']
         if k['id'] == 'KF-C10-4' and isinstance(f['input'], str) and unbalanced_quote_in_comment(f['input']):
+            return k['id']
+        if k['id'] == 'KF-C10-6' and 'operator without whitespace on both sides' in f['what'] and isinstance(f['input'], str) and operator_at_group_edge(f['input']):
+            return k['id']
+        if k['id'] == 'KF-C10-7' and 'blank after ( or before )' in f['what'] and isinstance(f['input'], str) and parenthesis_not_closed_by_last_child(f['input']):
             return k['id']
         if k['id'] == 'KF-C10-1' and 'use_space_around_operators is not a fixed point' in f['what']:
             # an operator/comparison token adjacent to a line-break token in the input
